@@ -42,6 +42,9 @@ pub struct SubScenario {
 	pub cap: usize,
 	pub groups: Vec<Vec<Push>>,
 	pub consumer: Vec<Act>,
+	/// what the close notification's `error` member holds: 0 a plain string, 1 an object, 2 null, 3 a number,
+	/// 4 a string with escapes
+	pub close_payload: u8,
 }
 
 pub struct SubState {
@@ -76,7 +79,16 @@ impl SubScenario {
 				json!({"jsonrpc":"2.0","method":"n","params":{"subscription": self.sid('B'), "result": format!("B{}", counters.1)}}).to_string()
 			}
 			Push::NU => json!({"jsonrpc":"2.0","method":"n","params":{"subscription": if self.sub_ids_numeric { json!(99) } else { json!("nobody") }, "result": "stray"}}).to_string(),
-			Push::EA => json!({"jsonrpc":"2.0","method":"n","params":{"subscription": self.sid('A'), "error": "closed by server"}}).to_string(),
+			Push::EA => {
+				let payload = match self.close_payload {
+					1 => json!({"code": 7, "message": "closed by server", "data": [1, 2]}),
+					2 => Value::Null,
+					3 => json!(17),
+					4 => json!("closed \"by\"\nserver"),
+					_ => json!("closed by server"),
+				};
+				json!({"jsonrpc":"2.0","method":"n","params":{"subscription": self.sid('A'), "error": payload}}).to_string()
+			}
 			Push::MN => json!({"jsonrpc":"2.0","method":"n","params":["method-notification"]}).to_string(),
 			Push::RC => {
 				let id = if matches!(self.id_kind, IdKind::String) { json!("4") } else { json!(4) };
@@ -99,7 +111,7 @@ impl SubScenario {
 impl Scenario for SubScenario {
 	type State = SubState;
 	fn name(&self) -> String {
-		format!("cli_mem/subs:cap{}:{}:{:?}:{:?}:{:?}", self.cap, if self.sub_ids_numeric { "num" } else { "str" }, self.id_kind, self.groups, self.consumer)
+		format!("cli_mem/subs:cap{}:{}:{:?}:{:?}:{:?}{}", self.cap, if self.sub_ids_numeric { "num" } else { "str" }, self.id_kind, self.groups, self.consumer, if self.close_payload > 0 { format!(":close-payload{}", self.close_payload) } else { String::new() })
 	}
 	fn config(&self) -> Value {
 		json!({"buffer_capacity": self.cap, "numeric_subscription_ids": self.sub_ids_numeric, "id_kind": format!("{:?}", self.id_kind), "push_groups": format!("{:?}", self.groups), "consumer_script": format!("{:?}", self.consumer), "messages": self.texts()})
@@ -494,7 +506,13 @@ pub fn scenarios(thorough: bool) -> Vec<SubScenario> {
 						}
 						let variants: Vec<(bool, IdKind)> = if thorough { vec![(false, IdKind::Number), (true, IdKind::String)] } else if (idx + si) % 2 == 0 { vec![(false, IdKind::Number)] } else { vec![(true, IdKind::String)] };
 						for (numeric, kind) in variants {
-							out.push(SubScenario { sub_ids_numeric: numeric, id_kind: kind, cap: *cap, groups: groups.clone(), consumer: script.clone() });
+							out.push(SubScenario { sub_ids_numeric: numeric, id_kind: kind, cap: *cap, groups: groups.clone(), consumer: script.clone(), close_payload: 0 });
+							// other shapes of the close notification's payload: for the reading consumer, short sequences
+							if si == 0 && len <= 2 && seq.contains(&Push::EA) && *cap == caps[0] {
+								for cp in 1..=4u8 {
+									out.push(SubScenario { sub_ids_numeric: numeric, id_kind: kind, cap: *cap, groups: groups.clone(), consumer: script.clone(), close_payload: cp });
+								}
+							}
 						}
 					}
 				}
@@ -507,7 +525,7 @@ pub fn scenarios(thorough: bool) -> Vec<SubScenario> {
 pub fn check(rep: &Reporter) {
 	let thorough = rep.tier.thorough();
 	rep.set_rule(
-		"two subscriptions A, B and one pending call; server push sequences of length 1..3 (thorough 4) over {notification for A, for B, for an unknown subscription id, close/error notification for A, method notification, response to the pending call}, each delivered under every grouping into consecutive messages (single objects / arrays: all 2^(n-1) compositions), × buffer capacity {1,2} (thorough {1,2,3}) × 7 consumer scripts for A over {next, unsubscribe, drop} × numeric/string ids; for every scenario the complete tree of interleavings of deliveries and consumer actions is explored (DFS, no bound). plus: a second subscribe call answered with the id of the live subscription (refused; the live stream keeps yielding exactly its own items; no unsubscribe goes out), all interleavings with three notifications. Oracle: a bounded-queue reference model replayed over the execution's own trace (items, order, end of stream and its reason, number of unsubscribe requests naming A on the wire, the pending call's result).",
+		"two subscriptions A, B and one pending call; server push sequences of length 1..3 (thorough 4) over {notification for A, for B, for an unknown subscription id, close/error notification for A (payload a string; on short sequences also an object, null, a number, a string with escapes), method notification, response to the pending call}, each delivered under every grouping into consecutive messages (single objects / arrays: all 2^(n-1) compositions), × buffer capacity {1,2} (thorough {1,2,3}) × 7 consumer scripts for A over {next, unsubscribe, drop} × numeric/string ids; for every scenario the complete tree of interleavings of deliveries and consumer actions is explored (DFS, no bound). plus: a second subscribe call answered with the id of the live subscription (refused; the live stream keeps yielding exactly its own items; no unsubscribe goes out), all interleavings with three notifications. Oracle: a bounded-queue reference model replayed over the execution's own trace (items, order, end of stream and its reason, number of unsubscribe requests naming A on the wire, the pending call's result).",
 	);
 	rep.assume("the subscribe acknowledgements of the prelude are delivered without scheduling points; B's consumer is free-running");
 	let scen = scenarios(thorough);
